@@ -2747,7 +2747,10 @@ util::Result<void> CWallet::DisplayAddress(const CTxDestination& dest)
 void CWallet::LoadLockedCoin(const COutPoint& coin, bool persistent)
 {
     AssertLockHeld(cs_wallet);
-    m_locked_coins.emplace(coin, persistent);
+    // A coin that is already locked in memory only can be locked again persistently:
+    // remember that, so that UnlockCoin() also erases its database record.
+    auto [it, inserted] = m_locked_coins.emplace(coin, persistent);
+    if (!inserted && persistent) it->second = true;
 }
 
 bool CWallet::LockCoin(const COutPoint& output, bool persist)
